@@ -243,6 +243,7 @@ def run(tier):
             if key not in groups or size_of(cases[idx - 1]) < size_of(cases[groups[key][0] - 1]):
                 groups[key] = (idx, drv, detail)
         nconf = 0
+        unreproduced = []
         print("phase judge done %.0fs; %d failing (input kind, driver, reason, site) groups" % (time.time() - t0, len(groups)))
         for (label, dclass, why, site), (idx, drv, detail) in sorted(groups.items()):
             c = cases[idx - 1]
@@ -256,7 +257,8 @@ def run(tier):
                 v = core.read_ndjson(os.path.join(d, "verdict.ndjson"))[0]
                 confirmed = any(b["driver"].split(":")[0] == dclass and b["why"] == why for b in v["bad"])
             if not confirmed:
-                raise core.MachineryError("failure did not reproduce alone: %s %s %s" % (label, drv, why))
+                unreproduced.append("%s %s %s" % (label, drv, why))
+                continue
             doc = bytes(c["bytes"]) if "bytes" in c else None
             sig = dict(input_kind=label, driver=drv if dclass != "prog" else "prog", why=why, site=site,
                        panic=(detail.get("panic") or "")[:120], input=(doc[:80].hex() if doc is not None else json.dumps(c["rep"])[:200]))
@@ -264,6 +266,11 @@ def run(tier):
         for b in enum_bad[:20]:
             sig = dict(input_kind="short input", driver=b["driver"], why="panic" if b["panic"] else "resources", site=b["site"], panic=b["panic"][:120], input=bytes(b["input"]).hex())
             verdicts.fail(sig, dict(case=dict(idx=1, bytes=b["input"], progs=["AIANAOA", "IIINNNOOO", "NAIOANAIO"], targets=TARGETS), why=sig["why"], driver=b["driver"]))
+        if unreproduced and not verdicts.violations and not verdicts.known:
+            # nothing confirmed at all: the run proves nothing either way
+            raise core.MachineryError("failures that did not reproduce alone: " + "; ".join(unreproduced[:5]))
+        for u in unreproduced[:10]:
+            print("NOTE not reproduced alone (not counted): " + u)
         rc = verdicts.report()
         kinds = {}
         for m in meta:
